@@ -112,6 +112,33 @@ def _call(cs, f, s):
     if op == 's_insert':
         ins = P.build_series(cs['ins'])
         return (s.insert_after if cs['after'] else s.insert_before)(P.dec(cs['key']), ins)
+    # ---- C14
+    if op == 's_isna':
+        return s.notna() if cs['neg'] else s.isna()
+    if op == 's_dropna':
+        return s.dropna()
+    if op == 's_fillna':
+        return s.fillna(P.dec(cs['v']))
+    if op == 's_fillna_series':
+        return s.fillna(_val(cs['val']))
+    if op == 's_filldir':
+        return (s.fillna_forward if cs['forward'] else s.fillna_backward)(cs['limit'])
+    if op == 's_fillsided':
+        return (s.fillna_leading if cs['leading'] else s.fillna_trailing)(P.dec(cs['v']))
+    if op == 's_count':
+        return s.count()
+    if op == 'f_isna':
+        return f.notna() if cs['neg'] else f.isna()
+    if op == 'f_dropna':
+        return f.dropna(axis=cs['axis'], condition=np.all if cs['cond'] == 'all' else np.any)
+    if op == 'f_fillna':
+        return f.fillna(P.dec(cs['v']))
+    if op == 'f_filldir':
+        return (f.fillna_forward if cs['forward'] else f.fillna_backward)(cs['limit'], axis=cs['axis'])
+    if op == 'f_fillsided':
+        return (f.fillna_leading if cs['leading'] else f.fillna_trailing)(P.dec(cs['v']), axis=cs['axis'])
+    if op == 'f_count':
+        return f.count(axis=cs['axis'])
     raise ValueError('unknown op %r' % op)
 
 
@@ -146,6 +173,10 @@ def normalise(res, cs=None):
         res = dict(res)
         res['cols'] = [{'dt': ['any', 0], 'vals': [_canon(v) for v in c['vals']]} for c in res['cols']]
         return res
+    if cs is not None and cs['op'] in ('f_filldir', 'f_fillsided') and cs.get('axis') == 1 and res.get('k') == 'frame':
+        res = dict(res)
+        res['cols'] = [{'dt': ['any', 0], 'vals': [['na'] if v[0] in ('nan', 'none', 'nat') else _canon(v) for v in c['vals']]} for c in res['cols']]
+        return res
     return _normalise(res, cs)
 
 
@@ -171,13 +202,15 @@ def layouts_of_case(cs):
     return [None]
 
 
-def replay_dump(ctx, dump, quick_layouts=3, violation_what='result differs from the specification', cls=None, any_err=False):
+def replay_dump(ctx, dump, quick_layouts=3, violation_what='result differs from the specification', cls=None, any_err=False, sample=1.0):
     '''R leg: every (case, expected) of a TLC state dump executed on the real code on every block layout.'''
     from .. import core
     n = 0
     for cs, exp in core.cases_from_dump(dump):
+        if sample < 1.0 and ctx.rng.random() > sample:
+            continue
         n += 1
-        lays = layouts_of_case(cs)
+        lays = [cs['layout']] if 'layout' in cs else layouts_of_case(cs)
         if ctx.tier == 'quick' and len(lays) > quick_layouts:
             lays = ctx.rng.sample(lays, quick_layouts)
         for lay in lays:
